@@ -2,13 +2,13 @@ HOOKS = {
   'guard': 'cargo feature `verif` (default off) in laythe_core / laythe_vm / laythe_lib',
   'enable': 'Kani harness crates under /verif/kx depend on /repo crates by path with features=["verif"] where a private item must be reached; the Verus engine reads source text and needs no hook',
   'baseline_off_cmd': 'cd /repo && cargo nextest run --workspace --no-fail-fast --test-threads 8 --offline',
-  'source_commits': [],
+  'source_commits': ['2f4e2ee', '649a94f'],
   'add_only': True,
 }
 ENGINES = [
-  {'name': 'vx', 'path': '/verif/vx', 'serves_properties': ['C04', 'C06', 'C07', 'C12', 'C15', 'C18'],
+  {'name': 'vx', 'path': '/verif/vx', 'serves_properties': ['C01', 'C03', 'C04', 'C06', 'C07', 'C12', 'C13', 'C15', 'C16', 'C18'],
    'kind_free_text': 'Verus 0.2026.09.13 on functions extracted mechanically from /repo on every run (byte-for-byte item text + listed rewrites), contracts spliced from units/<unit>/contracts.vrs'},
-  {'name': 'kx', 'path': '/verif/kx', 'serves_properties': ['C14'],
+  {'name': 'kx', 'path': '/verif/kx', 'serves_properties': ['C01', 'C14', 'C20'],
    'kind_free_text': 'Kani 0.68 / CBMC 6.11 harness crates calling the real crates in /repo through path dependencies; loop-free full-domain harnesses are complete proofs, #[kani::unwind] harnesses are labelled bounded'},
 ]
 NOTES = ('Contract-based deductive verification of the real code (see DESIGN.md). exit 0 = all obligations discharged; '
@@ -19,10 +19,51 @@ NOT_APPLICABLE = {
   'C08': 'liveness over whole scheduling histories (fairness, deadlock iff nothing runnable): needs a protocol-level inductive invariant over fiber_queue, every waiter list and every fiber; contracts decide one call; Kani cannot construct a Vm',
   'C19': 'a property of Vm::repl / Vm::compile state across prompt entries; those functions call parser, resolver and compiler and can be neither extracted for Verus nor driven by Kani',
 }
-for _p in ['C01', 'C03', 'C05', 'C09', 'C10', 'C11', 'C13', 'C16', 'C17', 'C20']:
+for _p in ['C05', 'C09', 'C10', 'C11', 'C17']:
   NOT_APPLICABLE.setdefault(_p, 'planned (DESIGN.md section 4) but no check is registered yet in this commit; not claimed until its obligations are discharged on the unchanged tree')
 
 CHECKS = {
+  'C01': dict(
+    engine='vx',
+    technique='Verus contracts on the real operator/control-flow op handlers of vm/ops.rs against source-level operator rules; Kani for falsiness and number equality on the real Value',
+    design_ref='DESIGN.md §4 C01',
+    level_text=('Unbounded proofs that the real op_add/sub/mul/div, op_less/.../greater_equal, op_equal/not_equal, op_not, op_negate, op_and/or, op_jump/loop/jump_if_false, literals, drops and constants do what the source rules say: '
+                'operands taken in source order (left is the deeper one), number x number gives the named IEEE operator on (left, right), string x string concatenation / content order with <= and >= true on equal strings, '
+                'any other combination raises the runtime error and pushes no value; and/or keep exactly the deciding operand; jump_if_false pops on both edges. Only these leaf rules are decided.'),
+    level_note=('Trusted: the interpreter model in vx/units/ops/prelude.rs (A-fiber stack as a Vec, A-heap value predicates, A-float named operators), rewrites R7,R8,R9,R12,R14. Not decided: parser, compiler lowering, call protocol.'),
+  ),
+  'C03': dict(
+    engine='vx',
+    technique='Verus contracts on the real property/invoke/super handlers over an abstract class heap, with the slow path as the specification',
+    design_ref='DESIGN.md §4 C03',
+    level_text=('Unbounded proofs on the real op_invoke/invoke/invoke_from_class, op_super_invoke/op_get_super, op_get_prop_by_name/op_set_prop_by_name, op_get_prop/op_set_prop, bind_method, call_method: a field holding a callable shadows a method (the field value is called and takes the receiver slot), '
+                'otherwise the method the receiver\'s class table gives; super looks up in the popped parent class; a method read as a value is bound to its receiver; only declared fields of instances are settable; an undeclared property is a PropertyError (D9 found and fixed here). The peephole fusion of get+call is C12.'),
+    level_note=('Trusted: abstract heap functions field_index/method_of/class_of_value (A-heap), axiom that non-instance classes declare no fields, resolve_call as a recording stub. Not decided: class construction, inheritance tables, field numbering by the compiler.'),
+  ),
+  'C13': dict(
+    engine='vx',
+    technique='Verus contracts on the real InlineCache (cache.rs) plus a cache-coherence invariant carried through the four cached handlers, whose postcondition is the uncached slow path',
+    design_ref='DESIGN.md §4 C13',
+    level_text=('Unbounded proofs: get_*_cache hits iff the entry holds the same class; set/clear change exactly one slot; with coherent(cache) as pre- and postcondition, op_get_prop_by_name, op_set_prop_by_name, op_invoke and op_super_invoke return exactly what the slow path (which never consults the cache) returns — '
+                'first execution, repeated, alternating classes and shadowing fields are all covered because the postcondition does not depend on the cache contents.'),
+    level_note=('Assumes A-slot (slot operands index this module\'s cache and belong to one site with one name; false for REPL entries) and A-classid (no class address reuse while cached: the GC part of the property is NOT decided).'),
+  ),
+  'C16': dict(
+    engine='vx',
+    technique='Verus: internal_error has precondition false and every unchecked stack access has a depth precondition, so each covered real handler is proved never to reach a host panic',
+    design_ref='DESIGN.md §4 C16',
+    level_text=('For the ~45 real op handlers under contract: given the stack-shape precondition that C06 supplies, no path reaches internal_error (a host panic), an out-of-range peek/pop, or to_num/to_obj/to_str on a value of the wrong kind; wrong operand kinds end in the documented runtime error. Only these handlers are decided.'),
+    level_note=('Not decided: native bodies and signature gate, call_native, resolve_call/call/call_closure and the frame limit, recursion through callbacks, errors while handling. Trusted as for C01/C03.'),
+  ),
+  'C20': dict(
+    engine='kx',
+    technique='Kani on the real laythe_core: loop-free full-domain harnesses for the layout arithmetic; bounded harnesses for allocate/size/release per kind and for Allocator accounting',
+    design_ref='DESIGN.md §4 C20',
+    level_text=('Complete (all usize lengths): make_array_layout / make_vector_layout / make_obj_layout sizes are exactly offset + len*size_of::<T>(), element areas aligned, alignment covers header/len/T, at the (H,T) pairs the runtime uses. '
+                'Bounded (listed as bounded_checks, not counted as discharged): for strings/tuples up to 3 elements, boxes and methods, the handle reports the allocated size and is released with the allocation layout (Kani dealloc model; D6 found and fixed); '
+                'on the real Allocator with one object, after a full and after a nursery collection allocated() equals the bytes owned, next_gc is twice that, exactly the rooted object is kept, marks are cleared, temp roots survive (D10 found and fixed).'),
+    level_note=('Trusted: CBMC/Kani memory model; in the Allocator harnesses ObjectHandle::drop and ObjectRef::trace are stubbed (A-stub: release proved per kind in kx/heap, tracing in kx/trace). Hooks: laythe_core feature verif (re-exports, verif_stats, verif_set_gc_count). Bounds: see bounded_checks.'),
+  ),
   'C06': dict(
     engine='vx',
     technique='Verus contracts on the real SymbolicByteCode::len/stack_effect, compute_label_offsets, apply_stack_effects, ByteCodeEncoder::encode and helpers against ISA spec tables',
